@@ -10,6 +10,7 @@ import (
 	"path/filepath"
 	"strings"
 	"testing"
+	"unicode"
 
 	"verif/harness/go2coq"
 	"verif/harness/go2coq/internal/synth"
@@ -269,4 +270,73 @@ func TestTableVarsAndMethods(t *testing.T) {
 	if _, err := go2coq.Translate(fset, []*ast.File{f}, "p", c); err == nil {
 		t.Error("accepted a map filled by init() without a table entry")
 	}
+}
+
+// The denotations of unicode.IsLetter / unicode.IsDigit (Lib/GoSemUnicode.v over the regenerated
+// range tables) agree with the library at and around every boundary of the tables, on Latin-1,
+// and outside the rune range.
+func TestUnicodeDenotation(t *testing.T) {
+	theories, _ := filepath.Abs("../../coq/theories")
+	if th := os.Getenv("GO2COQ_THEORIES"); th != "" {
+		theories = th
+	}
+	if _, err := os.Stat(filepath.Join(theories, "Lib", "GoSemUnicode.vo")); err != nil {
+		t.Skip("compiled Lib/GoSemUnicode.vo not found under " + theories)
+	}
+	if _, err := exec.LookPath("coqc"); err != nil {
+		t.Skip("coqc not found")
+	}
+	seen := map[int64]bool{}
+	var pts []int64
+	add := func(r int64) {
+		if !seen[r] {
+			seen[r] = true
+			pts = append(pts, r)
+		}
+	}
+	for r := int64(-2); r <= 0x2ff; r++ {
+		add(r)
+	}
+	for _, tab := range []*unicode.RangeTable{unicode.Letter, unicode.Digit} {
+		for _, x := range tab.R16 {
+			for _, d := range []int64{-1, 0, 1} {
+				add(int64(x.Lo) + d)
+				add(int64(x.Hi) + d)
+				add(int64(x.Lo) + int64(x.Stride) + d)
+			}
+		}
+		for _, x := range tab.R32 {
+			for _, d := range []int64{-1, 0, 1} {
+				add(int64(x.Lo) + d)
+				add(int64(x.Hi) + d)
+				add(int64(x.Lo) + int64(x.Stride) + d)
+			}
+		}
+	}
+	for _, r := range []int64{0xD800, 0xDFFF, 0xFFFD, 0xFFFF, 0x10000, 0x10FFFF, 0x110000, 0x7fffffff} {
+		add(r)
+	}
+	var in, letters, digits []string
+	for _, r := range pts {
+		in = append(in, fmt.Sprintf("(%d)%%Z", r))
+		ok := r >= 0 && r <= 0x7fffffff
+		letters = append(letters, fmt.Sprint(ok && unicode.IsLetter(rune(r))))
+		digits = append(digits, fmt.Sprint(ok && unicode.IsDigit(rune(r))))
+	}
+	var b strings.Builder
+	b.WriteString("From Coq Require Import List ZArith Bool.\nImport ListNotations.\nFrom GI Require Import Lib.GoSemUnicode.\n")
+	fmt.Fprintf(&b, "Definition pts : list Z := [%s].\n", strings.Join(in, "; "))
+	fmt.Fprintf(&b, "Example letters : map go_unicode_IsLetter pts = [%s].\nProof. vm_compute. reflexivity. Qed.\n", strings.Join(letters, "; "))
+	fmt.Fprintf(&b, "Example digits : map go_unicode_IsDigit pts = [%s].\nProof. vm_compute. reflexivity. Qed.\n", strings.Join(digits, "; "))
+	dir := t.TempDir()
+	file := filepath.Join(dir, "Uni.v")
+	if err := os.WriteFile(file, []byte(b.String()), 0o644); err != nil {
+		t.Fatal(err)
+	}
+	cmd := exec.Command("timeout", "300", "coqc", "-q", "-Q", theories, "GI", file)
+	cmd.Dir = dir
+	if out, err := cmd.CombinedOutput(); err != nil {
+		t.Fatalf("coqc: %v\n%s", err, out)
+	}
+	t.Logf("IsLetter / IsDigit agree with the library on %d code points", len(pts))
 }
